@@ -28,6 +28,10 @@ def build_cases(tier, seed):
             prof["network"] = "denver"
         # benign control only (DESIGN 6): built-in generators, plus valid repositioning / base / station trips
         ctrl = BUILTIN
+        if i % 6 == 1:
+            # human drivers whose battery is full when the shift ends and who cannot charge at home: the built-in
+            # driver logic sends them to a station, where they arrive with nothing to charge
+            prof.update({"p_human": 0.8, "p_home_station": 0.2, "soc": [1.0, 1.0, 0.9995, 0.9], "p_ice": 0.0, "spread": 0.004, "network": "euclidean", "dts": [7, 30, 45, 60], "custom_mech": 0.0, "n_vehicles": (6, 12), "starts": [0, 1000, 3600, 43200, 86399, 30000, 60000]})
         cases.append(trace_case("C06", i, s, prof, ctrl, steps, ["C06"]))
     if tier == "thorough":
         for w in ("denver_downtown/denver_demo.yaml", "denver_downtown/denver_demo_fleets.yaml", "denver_downtown/denver_demo_constrained_charging.yaml"):
@@ -39,8 +43,8 @@ def build_cases(tier, seed):
 
 
 FLOORS = {
-    "quick": {"c06_moves": 10000, "c06_split_moves": 3000, "c06_journeys_completed": 800, "c06_progress_checks": 5000, "c06_arrivals": 800},
-    "thorough": {"c06_moves": 200000, "c06_split_moves": 60000, "c06_journeys_completed": 15000, "c06_progress_checks": 100000, "c06_arrivals": 15000},
+    "quick": {"c06_moves": 10000, "c06_split_moves": 3000, "c06_journeys_completed": 800, "c06_progress_checks": 5000, "c06_arrivals": 800, "c06_arrivals_at_station_with_full_battery": 3},
+    "thorough": {"c06_moves": 200000, "c06_split_moves": 60000, "c06_journeys_completed": 15000, "c06_progress_checks": 100000, "c06_arrivals": 15000, "c06_arrivals_at_station_with_full_battery": 30},
 }
 
 
